@@ -30,7 +30,7 @@ MAX_REPORTS = 4
 
 TIERS = {
     "quick": {"H": 150, "F": 90, "T": 420},
-    "thorough": {"H": 6000, "F": 2500, "T": 24000},
+    "thorough": {"H": 24000, "F": 9000, "T": 100000},
 }
 INJECT_W = streams.INJECT_KINDS_WRITE
 INJECT_R = streams.INJECT_KINDS_READ
